@@ -160,6 +160,12 @@ bool Units::UnitsImpl::isBaseUnitWithHistory(History &history, const UnitsConstP
 
 bool Units::UnitsImpl::performTestWithHistory(History &history, const UnitsConstPtr &units, TestType type) const
 {
+    std::vector<const Units *> localPath;
+    return performTestWithHistory(history, localPath, units, type);
+}
+
+bool Units::UnitsImpl::performTestWithHistory(History &history, std::vector<const Units *> &localPath, const UnitsConstPtr &units, TestType type) const
+{
     ModelPtr model;
     if (mUnits->isImport()) {
         model = mUnits->importSource()->model();
@@ -179,11 +185,18 @@ bool Units::UnitsImpl::performTestWithHistory(History &history, const UnitsConst
 
         history.push_back(h);
 
-        return importedUnits->pFunc()->performTestWithHistory(history, importedUnits, type);
+        return importedUnits->pFunc()->performTestWithHistory(history, localPath, importedUnits, type);
     }
 
+    // Units that reference each other in a cycle are never defined, but they have nothing left to resolve.
+    if (std::find(localPath.begin(), localPath.end(), mUnits) != localPath.end()) {
+        return type == TestType::RESOLVED;
+    }
+    localPath.push_back(mUnits);
+
+    bool result = true;
     model = std::dynamic_pointer_cast<libcellml::Model>(mUnits->parent());
-    for (size_t unitIndex = 0; unitIndex < mUnits->unitCount(); ++unitIndex) {
+    for (size_t unitIndex = 0; result && (unitIndex < mUnits->unitCount()); ++unitIndex) {
         std::string reference = mUnits->unitAttributeReference(unitIndex);
         if (isStandardUnitName(reference)) {
             continue;
@@ -192,18 +205,20 @@ bool Units::UnitsImpl::performTestWithHistory(History &history, const UnitsConst
         if (model != nullptr) {
             auto childUnits = model->units(reference);
             if (childUnits != nullptr) {
-                if (!childUnits->pFunc()->performTestWithHistory(history, childUnits, type)) {
-                    return false;
+                if (!childUnits->pFunc()->performTestWithHistory(history, localPath, childUnits, type)) {
+                    result = false;
                 }
             } else if (type == TestType::DEFINED) {
-                return false;
+                result = false;
             }
         } else if (type == TestType::DEFINED) {
-            return false;
+            result = false;
         }
     }
 
-    return true;
+    localPath.pop_back();
+
+    return result;
 }
 
 /**
@@ -650,27 +665,39 @@ UnitsMap defineUnitsMap(const UnitsPtr &units)
     return unitsMap;
 }
 
-bool Units::requiresImports() const
+static bool unitsRequireImports(const UnitsConstPtr &units, std::vector<const Units *> &visited)
 {
     // Function to check child unit dependencies for imports.
-    if (isImport()) {
+    if (units->isImport()) {
         return true;
     }
 
-    auto model = owningModel(shared_from_this());
+    // Guard against units that reference each other in a cycle.
+    if (std::find(visited.begin(), visited.end(), units.get()) != visited.end()) {
+        return false;
+    }
+    visited.push_back(units.get());
+
+    auto model = owningModel(units);
     if (model != nullptr) {
-        for (size_t u = 0; u < unitCount(); ++u) {
-            const std::string ref = unitAttributeReference(u);
+        for (size_t u = 0; u < units->unitCount(); ++u) {
+            const std::string ref = units->unitAttributeReference(u);
             auto child = model->units(ref);
-            if ((child == nullptr) || (this == child.get())) {
+            if (child == nullptr) {
                 continue;
             }
-            if (child->requiresImports()) {
+            if (unitsRequireImports(child, visited)) {
                 return true;
             }
         }
     }
     return false;
+}
+
+bool Units::requiresImports() const
+{
+    std::vector<const Units *> visited;
+    return unitsRequireImports(shared_from_this(), visited);
 }
 
 bool Units::compatible(const UnitsPtr &units1, const UnitsPtr &units2)
